@@ -19,3 +19,53 @@ pub mod c09;
 pub mod c13;
 pub mod c10;
 pub mod c14;
+
+/// Dispatch on a property id: binds the property's (unit) struct to `$p` in `$body`.
+#[macro_export]
+macro_rules! for_property {
+    ($id:expr, $p:ident => $body:expr, $else:expr) => {
+        match $id {
+            "C01" => { let $p = $crate::props::c01::C01; $body }
+            "C02" => { let $p = $crate::props::c02::C02; $body }
+            "C03" => { let $p = $crate::props::c03::C03; $body }
+            "C04" => { let $p = $crate::props::c04::C04; $body }
+            "C05" => { let $p = $crate::props::c05::C05; $body }
+            "C06" => { let $p = $crate::props::c06::C06; $body }
+            "C07" => { let $p = $crate::props::c07::C07; $body }
+            "C08" => { let $p = $crate::props::c08::C08; $body }
+            "C09" => { let $p = $crate::props::c09::C09; $body }
+            "C10" => { let $p = $crate::props::c10::C10; $body }
+            "C11" => { let $p = $crate::props::c11::C11; $body }
+            "C12" => { let $p = $crate::props::c12::C12; $body }
+            "C13" => { let $p = $crate::props::c13::C13; $body }
+            "C14" => { let $p = $crate::props::c14::C14; $body }
+            "C15" => { let $p = $crate::props::c15::C15; $body }
+            "C16" => { let $p = $crate::props::c16::C16; $body }
+            "C17" => { let $p = $crate::props::c17::C17; $body }
+            "C18" => { let $p = $crate::props::c18::C18; $body }
+            "C19" => { let $p = $crate::props::c19::C19; $body }
+            "C20" => { let $p = $crate::props::c20::C20; $body }
+            _ => $else,
+        }
+    };
+}
+
+thread_local! {
+    static FUZZ_ENTRY: std::cell::RefCell<Option<Box<dyn Fn(&[u8]) -> Option<String>>>> = const { std::cell::RefCell::new(None) };
+}
+
+/// Entry of the generic coverage-guided target: the property is chosen by the environment
+/// variable VP_FUZZ_PROP; returns Some(message) on a violation.
+pub fn fuzz_case_entry(data: &[u8]) -> Option<String> {
+    FUZZ_ENTRY.with(|cell| {
+        if cell.borrow().is_none() {
+            let id = std::env::var("VP_FUZZ_PROP").expect("VP_FUZZ_PROP must name the property");
+            let f: Box<dyn Fn(&[u8]) -> Option<String>> = for_property!(id.as_str(), p => {
+                let ctx = crate::engine::FuzzCtx::new(p);
+                Box::new(move |d: &[u8]| ctx.one(d))
+            }, panic!("unknown property {}", id));
+            *cell.borrow_mut() = Some(f);
+        }
+        (cell.borrow().as_ref().unwrap())(data)
+    })
+}
